@@ -160,4 +160,15 @@ CHECKS = {
   "note": "Trusted: Coq kernel; adapters. The default mode (project_on_one_chord offsets) and keep_pitch are oracle-only; with keep_score the "
           "target's retained parts may outlast a shorter source (the duration clause is judged on the projected parts).",
  },
+ "C15": {
+  "text": "Theorems (integer ticks, any bar length L > 0, any first bar number): once a chord exists every token keeps the invariant "
+          "'the chord in progress lasts to the end of its bar and the earlier chords fill exactly the time since the first chord symbol' "
+          "(each chord lasts until the next symbol); hence total = (bars from first to last chord symbol) x L - pickup. The clock model "
+          "(bar/beat/chord tokens, variations dropped, beat convention) is tied to ScoreFormatter(text).parse() on generated annotations over "
+          "10 signatures, flush-left and indented, first bar m0/m1/m3/m5/m12. Figures: diatonic triads/sevenths x inversions x 12 keys x 2 modes "
+          "(1 608 cases, exhaustive) are compared with textbook pitch classes and basses by the oracle. The first-bar renumbering defect was repaired.",
+  "note": "Trusted: Coq kernel; the line/space tokeniser (text is generated from tokens); float bar lengths (exact for these signatures). "
+          "The figure tables (chromatic, applied, special figures) are not modelled in Coq: oracle on the diatonic domain only. Signature "
+          "changes inside an annotation are covered by the model correspondence, not by the theorem. Beat unit = the code's convention (DESIGN).",
+ },
 }
